@@ -18,6 +18,10 @@ from . import core, pbx
 N = 200
 OPS = ("add", "sub", "mul", "div")
 KINDS = ("int", "float", "npf", "npi")
+XKINDS = ("npu8", "npu64", "npi8", "npf32")          # numpy unsigned / narrow scalars
+INTK = ("int", "npi", "npu8", "npu64", "npi8")       # integer-valued kinds
+UNSIGNED = ("npu8", "npu64")
+MODEL_KIND = {"int": "int", "float": "float", "npf": "npf", "npi": "npi", "npu8": "npi", "npu64": "npi", "npi8": "npi", "npf32": "npf"}
 UNARY = ("exp", "log", "sqrt")
 
 
@@ -31,6 +35,14 @@ def mkconst(kind, v):
         return np.float64(v)
     if kind == "npi":
         return np.int64(v)
+    if kind == "npu8":
+        return np.uint8(v)
+    if kind == "npu64":
+        return np.uint64(v)
+    if kind == "npi8":
+        return np.int8(v)
+    if kind == "npf32":
+        return np.float32(v)
     raise ValueError(kind)
 
 
@@ -42,16 +54,24 @@ def const_value(rng, kind, ccls, dyadic):
         return 0
     if ccls == "one":
         return 1
+    if kind in UNSIGNED:
+        return rng.choice([2, 3, 5, 8, 200])          # unsigned: classes neg / m1 do not exist
+    if kind == "npi8":
+        v = rng.choice([2, 3, 5, 8, 100])
+        return -v if ccls == "neg" else v
+    if kind == "npf32":
+        v = float(np.float32(rng.choice([0.25, 1.5, 2.5, 0.1, 1.0 / 3.0, 6.75])))   # the value the scalar really has
+        return -v if ccls == "neg" else v
     if ccls in ("tiny", "huge"):
         # non-zero constants far below machine epsilon / far above 2**53 (physical constants, unit changes)
-        if kind in ("int", "npi"):
+        if kind in INTK:
             v = rng.choice([10 ** 16, 10 ** 18, 2 ** 62]) if ccls == "huge" else 1
         elif ccls == "tiny":
             v = rng.choice([1e-20, 2.0 ** -60, 1.380649e-23, 1.602176634e-19, 3e-17, 2.0 ** -53])
         else:
             v = rng.choice([1e18, 2.0 ** 70, 3e16, 6.02214076e23, 2.0 ** 53 + 2])
         return -v if rng.random() < 0.3 else v
-    if kind in ("int", "npi"):
+    if kind in INTK:
         v = rng.choice([2, 3, 4, 5, 7, 8, 16])
     elif dyadic:
         v = rng.choice([0.25, 0.5, 1.5, 2.0, 2.5, 4.0, 6.75, 8.0])
@@ -140,11 +160,62 @@ def thin_box(rng, mode):
     return l, r
 
 
+SHAPES = ("flatL", "flatR", "step", "onezw")
+
+
+def shape_box(rng, shape, sign):
+    """integer boxes with a special shape of the bounds:
+    flatL  left bound flat, right bound varying (nested focal elements sharing the lower endpoint)
+    flatR  the mirror image;  step  few plateaus, the jumps of the two bounds at different levels;
+    onezw  exactly one zero-width component"""
+    def plateaus(k, lo, hi):
+        vals = sorted(rng.sample(range(lo, hi), k))
+        cuts = sorted(rng.sample(range(1, N), k - 1))
+        out, seg = [], 0
+        for i in range(N):
+            while seg < len(cuts) and i >= cuts[seg]:
+                seg += 1
+            out.append(vals[seg])
+        return out
+    if shape == "flatL":
+        vary = sorted(rng.sample(range(5, 900), N)) if rng.random() < 0.5 else plateaus(rng.choice([2, 3, 7]), 5, 900)
+        l, r = [rng.randint(1, 5)] * N, vary
+    elif shape == "flatR":
+        vary = sorted(rng.sample(range(5, 900), N)) if rng.random() < 0.5 else plateaus(rng.choice([2, 3, 7]), 5, 900)
+        l, r = vary, [rng.randint(900, 950)] * N
+    elif shape == "step":
+        l = plateaus(rng.choice([2, 3, 5]), 1, 400)
+        r = plateaus(rng.choice([2, 4, 6]), 400, 900)
+    else:
+        l = plateaus(4, 1, 800)
+        r = [x + 37 for x in l]
+        v = sorted(set(l))[rng.randrange(4)]
+        r = [b if a != v else a for a, b in zip(l, r)]
+        r = [int(x) for x in np.maximum.accumulate(r)]
+        if sum(1 for a, b in zip(sorted(set(zip(l, r))), [0] * 9) if a[0] == a[1]) != 1:
+            return shape_box(rng, shape, sign)
+    if sign == "neg":
+        l, r = [-x for x in reversed(r)], [-x for x in reversed(l)]     # flatL <-> flatR swap under the mirror: undo below
+        if shape in ("flatL", "flatR"):
+            pass
+    elif sign == "str":
+        l, r = [x - 450 for x in l], [x - 450 for x in r]
+    assert all(a <= b for a, b in zip(l, r)) and l == sorted(l) and r == sorted(r)
+    return l, r
+
+
+def shape_of(l, r):
+    fl, frr = min(l) == max(l), min(r) == max(r)
+    return "flatL" if fl and not frr else "flatR" if frr and not fl else "other"
+
+
 REPRS = ("intarr", "intlist", "intderived", "floatlist")
 
 
 def build_operand(c):
     """the p-box operand in the representation the case asks for (theme: integer dtypes, lists)"""
+    if c.get("_obj") is not None:
+        return c["_obj"]          # a live p-box: the result of an earlier call, or an operand used again
     S = pbx.Staircase()
     l, r = c["box"]
     rp = c.get("repr", "float")
@@ -229,16 +300,16 @@ def wire(c):
     k = c["k"]
     b = pbx.wire_pb(*c["box"])
     if k == "num":
-        return f"numk {N} {c['ckind']} {c['op']} {b} {core.q(c['c'])}"
+        return f"numk {N} {MODEL_KIND[c['ckind']]} {c['op']} {b} {core.q(c['c'])}"
     if k == "rnum":
-        return f"rnumk {N} {c['ckind']} {c['op']} {core.q(c['c'])} {b}"
+        return f"rnumk {N} {MODEL_KIND[c['ckind']]} {c['op']} {core.q(c['c'])} {b}"
     if k in ("neg", "recip"):
         return f"{k} {N} {b}"
     if k == "un":
         fl, fr, _ = supplied(c)
         return f"un {N} {c['f']} {b} {core.ql(fl)} {core.ql(fr)}"
     if k == "pow":
-        if c["ckind"] in ("int", "npi"):
+        if c["ckind"] in INTK:
             return f"pown {N} {b} {int(c['c'])}"
         fl, fr, _ = supplied(c)
         return f"poww {N} {b} {core.ql(fl)} {core.ql(fr)}"
@@ -262,7 +333,7 @@ def in_domain(c):
     if k == "un":
         return {"exp": max(r) < 700, "log": min(l) > 0, "sqrt": min(l) >= 0}[c["f"]]   # exp(x) is finite in binary64 for x < 709
     if k == "pow":
-        if c["ckind"] in ("int", "npi"):
+        if c["ckind"] in INTK:
             return c["c"] >= 1
         return min(l) >= 0 and c["c"] > 0
     return True
@@ -279,7 +350,7 @@ def point_map(c):
         return lambda x: -x
     if k == "recip":
         return lambda x: 1 / x
-    if k == "pow" and c["ckind"] in ("int", "npi"):
+    if k == "pow" and c["ckind"] in INTK:
         kk = int(c["c"])
         return lambda x: x ** kk
     return None
@@ -297,7 +368,7 @@ def expected_steps(c):
     """sorted lower / upper endpoints of the images of the focal intervals; exact when the map is rational"""
     l, r = c["box"]
     f = point_map(c)
-    even_pow = c["k"] == "pow" and c["ckind"] in ("int", "npi") and int(c["c"]) % 2 == 0
+    even_pow = c["k"] == "pow" and c["ckind"] in INTK and int(c["c"]) % 2 == 0
     lo, hi = [], []
     if f is not None:
         for a, b in zip(pbx.fr(l), pbx.fr(r)):
@@ -333,7 +404,7 @@ def exact_case(c):
         small = float(cv) == cv and abs(F(cv)).denominator <= 64 and abs(cv) < 4096
         return c["op"] in ("add", "sub", "mul") and small
     if k == "pow":
-        return c["ckind"] in ("int", "npi") and 0 <= c["c"] <= 2   # numpy squares exactly; higher powers go through pow()
+        return c["ckind"] in INTK and 0 <= c["c"] <= 2   # numpy squares exactly; higher powers go through pow()
     return False
 
 
@@ -383,7 +454,7 @@ def extra_cases(ctx):
         for op in OPS:
             for order in ("num", "rnum"):
                 for kind in KINDS:
-                    if cc == "tiny" and kind in ("int", "npi"):
+                    if cc == "tiny" and kind in INTK:
                         continue
                     bc = rng.choice(["pos", "neg"]) if (order == "rnum" and op == "div") else rng.choice(["pos", "neg", "str", "interval"])
                     box = make_box(rng, bc) if rng.random() < 0.6 else distinct_steps_box(rng, bc if bc in ("pos", "neg", "str") else "pos")
@@ -418,12 +489,12 @@ def extra_cases(ctx):
         for kind, cv in (("int", 2), ("npi", 3), ("float", 0.5), ("npf", 2.0)):
             bc = "pos" if kind in ("float", "npf") else rng.choice(["pos", "neg", "str"])
             cases.append(new_case("pow", make_box(rng, bc), repr=rp, ckind=kind, c=cv, bcls=bc, stream="repr", via=rng.choice(["bare", "method"])))
-    # integer-dtype bounds times an integer beyond 2**63 / |bound|: int64 wrap-around (open finding KF-C06-int-dtype-overflow)
+    # integer input times an integer beyond 2**63 / |bound| (int64 wrap-around before fix 6617ecd, KF-C06-int-dtype-overflow)
     for rp, kind in (("intarr", "int"), ("intlist", "npi"), ("intderived", "int"), ("minmax", "npi")):
         box = ([2] * N, [50] * N) if rp == "minmax" else distinct_steps_box(rng, "pos")
         for order in ("num", "rnum"):
             cases.append(new_case(order, box, repr=rp, op="mul", ckind=kind, c=10 ** 18, ccls="huge", bcls="int-overflow",
-                                  stream="repr", via="bare", notie=True))
+                                  stream="repr", via="bare"))
     for a, b in ((2, 5), (-7, -3), (-2, 3)):
         box = ([a] * N, [b] * N)
         cases.append(new_case("num", box, repr="minmax", op="mul", ckind="float", c=-0.5, ccls="neg", bcls="minmax", stream="repr", via="bare"))
@@ -536,7 +607,7 @@ def gen_cases(ctx):
             l, r, kd = pbx.lib_box200(rng, sg); bc = "lib-" + kd; box, intbox = (l, r), False
         cases.append(new_case("un", box, intbox=intbox, f=f, bcls=bc, stream="unary", via=rng.choice(["method", "ufunc"])))
     # powers: integer exponents on every sign class (even powers of straddling boxes fold at zero)
-    for kind in ("int", "npi"):
+    for kind in INTK:
         for cv in (2, 3):
             for bc in ("pos", "neg", "str", "pos0", "neg0"):
                 cases.append(new_case("pow", make_box(rng, bc), ckind=kind, c=cv, bcls=bc, stream="pow"))
@@ -544,7 +615,7 @@ def gen_cases(ctx):
         cases.append(new_case("pow", distinct_steps_box(rng, bc), ckind="int", c=2, bcls="distinct-" + bc, stream="pow"))
     for _ in range(ctx.scale(90, 5000)):
         kind = rng.choice(KINDS)
-        if kind in ("int", "npi"):
+        if kind in INTK:
             cv = rng.choice([1, 2, 2, 3, 3, 4])
             sg = rng.choice(["pos", "neg", "str", "pos0", "neg0"])
         else:
@@ -563,7 +634,7 @@ def gen_cases(ctx):
 
 def case_json(c, impl=None, full=False):
     l, r = c["box"]
-    d = {k: v for k, v in c.items() if k not in ("box",)}
+    d = {k: v for k, v in c.items() if k not in ("box",) and not k.startswith("_")}
     d["c"] = float(c["c"]) if "c" in c else None
     if full:
         d["box"] = [list(map(float, l)), list(map(float, r))]
@@ -791,7 +862,7 @@ def replay(obj):
     l, r = c["box"]
     as_int = all(float(x).is_integer() for x in l + r)
     case["box"] = ([int(x) for x in l], [int(x) for x in r]) if as_int else (l, r)
-    if case.get("ckind") in ("int", "npi") and case.get("c") is not None:
+    if case.get("ckind") in INTK and case.get("c") is not None:
         case["c"] = int(case["c"])
     ctx = core.Check("C06", "quick", int(obj.get("seed", 0)))
     evaluate(ctx, case, None)
